@@ -303,9 +303,10 @@ package vnet
 //@ func (f *DelayFilter) Run(ctx context.Context)
 //@   role consumer
 //@   requires ctx != nil && f.queue != nil && f.NIC != nil
-//@   modifies fwdN, fwdNIC, fwdChunk, fwdTick, fwdItem, fwdIdx, lastUntil
+//@   modifies fwdN, fwdNIC, fwdChunk, fwdTick, fwdItem, fwdIdx, lastUntil, tmState
 //@   ensures [fifo] f.queue.head - old(f.queue.head) == fwdN - old(fwdN) && fwdN >= old(fwdN) &&
 //@        (forall k mathint :: {fwdNIC[k]} old(fwdN) <= k && k < fwdN ==> dfLog(k, ref(f.NIC), old(f.queue.head) + k - old(fwdN)))
+//@   loop 1 invariant [timer] timer != nil && timer.C != nil && (tmState[ref(timer.C)] != 0 || (f.queue.tail > f.queue.head && f.queue.itag[f.queue.head] != tagof(timedChunk)))
 //@   loop 1 invariant [fifo] timer != nil && timer.C != nil && f.queue.head - old(f.queue.head) == fwdN - old(fwdN) && fwdN >= old(fwdN) &&
 //@        (forall k mathint :: {fwdNIC[k]} old(fwdN) <= k && k < fwdN ==> dfLog(k, ref(f.NIC), old(f.queue.head) + k - old(fwdN)))
 //@   ghost after pop#1: assert [popped] result$1 && ref(next) == ref(result$0) && tag(result$0) == tagof(timedChunk); fwdIdx[fwdN] = f.queue.head - 1; fwdItem[fwdN] = ref(next); fwdTick[fwdN] = now
